@@ -3,3 +3,4 @@ import Properties.C15
 import Properties.C14
 import Properties.C09
 import Properties.C19
+import Properties.C20
